@@ -394,3 +394,7 @@ func samePtr(a, b *PtrInfo) bool {
 	}
 	return true
 }
+
+// maxSliceLen bounds the length, capacity and offset of every slice and string in the model: 2^40
+// elements (an address-space bound; a terabyte of bytes). Stated in the evidence as an assumption.
+const maxSliceLen = 1 << 40
